@@ -35,6 +35,9 @@ def _unwrap_check_and_cast(method):
             elif bijection.cond_shape is not None:
                 raise ValueError("Expected condition to be provided.")
 
+            if bijection.cond_shape is None:
+                return None  # The condition is ignored for unconditional bijections
+
             if (
                 bijection.cond_shape is not None
                 and condition.shape != bijection.cond_shape
